@@ -28,6 +28,12 @@ def handle (j : Json) : Except String Json := do
                        util := ← getRat qj "util", alloc := ← getRat qj "alloc" }
   if ¬ p.ok then
     return Json.mkObj [("ctor", "ValueError")]
+  -- a single write at an extended (possibly infinite) supply, followed by a read
+  if let .ok es := getERat j "esupply" then
+    let v ← getRat j "v"
+    let st : St := { pool := { pool with demand := fwdE p es v }, stored := cdE p es v }
+    let (_, r) := Standardiser.read p st
+    return Json.mkObj [("ctor", "ok"), ("fwd", jERat (fwdE p es v)), ("read", jERat r)]
   let ops ← (← getArr j "ops").toList.mapM parseOp
   let mut st := init pool
   let mut obs : Array Json := #[]
